@@ -53,6 +53,8 @@ PIN = {
     "terWidth": 80,
     "modelPrefix": "MODEL     ", "modelWidth": 4,
     "canWrite": (99999, 1, 9999),
+    # the PDB branch of can_write_pdb of the tree this framework was built against: `return True`
+    "pdbAssumedToFit": True, "canWritePdbBranch": None,
     "fitLimits": (99999, 9999),
     "chainAlphabet": string.ascii_uppercase + string.ascii_lowercase + string.digits,
     "fitCifCols": {"serial": "id", "chain": "auth_asym_id", "resSeq": "auth_seq_id", "iCode": "pdbx_PDB_ins_code"},
@@ -504,9 +506,50 @@ def ter_and_model(tree, ctx):
 def limits(tree, ctx):
     res = {}
     fn = find_function(tree, "can_write_pdb")
+    # the branch `if format_type == "PDB":` — either `return True` without looking at the table (the PDB-derived table
+    # is *assumed* to fit) or its own three comparisons on serial / chainID / resSeq
+    pdb_if = None
+    try:
+        for node in ast.walk(fn):
+            if isinstance(node, ast.If) and isinstance(node.test, ast.Compare) and len(node.test.ops) == 1 \
+                    and isinstance(node.test.ops[0], ast.Eq) and isinstance(node.test.comparators[0], ast.Constant) \
+                    and node.test.comparators[0].value == "PDB":
+                pdb_if = node
+                break
+        assert pdb_if is not None
+        inside = [n for s in pdb_if.body for n in ast.walk(s)]
+        pgts = []
+        for node in inside:
+            if isinstance(node, ast.Compare) and len(node.ops) == 1 and isinstance(node.ops[0], ast.Gt) \
+                    and _const_int(node.comparators[0]) is not None:
+                pgts.append((ast.unparse(node.left), _const_int(node.comparators[0])))
+        rets = [n for n in inside if isinstance(n, ast.Return)]
+        if not pgts:
+            # no comparison at all: every path through the branch must be `return True`
+            assert rets and all(isinstance(r.value, ast.Constant) and r.value.value is True for r in rets)
+            res["pdbAssumedToFit"] = True
+            res["canWritePdbBranch"] = None
+        else:
+            pser = [c for s, c in pgts if "serial" in s]
+            pch = [c for s, c in pgts if "chainID" in s]
+            prs = [c for s, c in pgts if "resSeq" in s]
+            assert len(pser) == 1 and len(pch) == 1 and len(prs) == 1 and len(pgts) == 3
+            # shape: every comparison guards `return False`, the branch ends in `return True`
+            assert any(isinstance(r.value, ast.Constant) and r.value.value is True for r in rets)
+            assert sum(1 for r in rets if isinstance(r.value, ast.Constant) and r.value.value is False) == 3
+            res["pdbAssumedToFit"] = False
+            res["canWritePdbBranch"] = (pser[0], pch[0], prs[0])
+    except Exception:
+        ctx.lost("parser_v2.can_write_pdb.pdb_branch")
+        res["pdbAssumedToFit"] = PIN["pdbAssumedToFit"]
+        res["canWritePdbBranch"] = PIN["canWritePdbBranch"]
+        pdb_if = None
     try:
         gts = []
+        skip = {id(n) for s in (pdb_if.body if pdb_if is not None else []) for n in ast.walk(s)}
         for node in ast.walk(fn):
+            if id(node) in skip:
+                continue
             if isinstance(node, ast.Compare) and len(node.ops) == 1 and isinstance(node.ops[0], ast.Gt) \
                     and _const_int(node.comparators[0]) is not None:
                 gts.append((node.lineno, ast.unparse(node.left), _const_int(node.comparators[0])))
@@ -740,6 +783,12 @@ def emit(ctx):
              lean_list(["(.%s, [%s])" % (f, ", ".join(lean_str(c) for c in r["cifReadCols"][f])) for f in ORDER], 2) + "\n")
     o.append("/-- `can_write_pdb`: a mmCIF-derived table fits iff max id ≤ , max chain-id length ≤ , max number ≤ -/")
     o.append("def canWriteMaxSerial : Nat := %d\ndef canWriteMaxChainLen : Nat := %d\ndef canWriteMaxResSeq : Nat := %d\n" % tuple(r["canWrite"]))
+    o.append("/-- `can_write_pdb`, branch `format_type == \"PDB\"`: `true` = it returns True without looking at the table;\n"
+             "`false` = it compares serial / chainID length / resSeq with the three limits below (when the table is assumed to\n"
+             "fit the limits are not in the source and are emitted equal to the mmCIF ones, unused) -/")
+    o.append("def pdbAssumedToFit : Bool := %s" % ("true" if r["pdbAssumedToFit"] else "false"))
+    o.append("def canWritePdbMaxSerial : Nat := %d\ndef canWritePdbMaxChainLen : Nat := %d\ndef canWritePdbMaxResSeq : Nat := %d\n"
+             % tuple(r["canWritePdbBranch"] or r["canWrite"]))
     o.append("/-- `fit_to_pdb` -/")
     o.append("def maxSerial : Nat := %d\ndef maxResSeq : Nat := %d" % tuple(r["fitLimits"]))
     o.append("def chainAlphabet : List Char := %s\n" % lchars(r["chainAlphabet"]))
